@@ -57,6 +57,14 @@ func (x *FnExec) call(in ssa.Instruction, c *ssa.CallCommon, st *State) (Val, bo
 			res := x.applyContractSig(in, con, calleeName, sig, c.Value.Type(), args, st)
 			return res, true
 		}
+		if x.eng.isPureDep(calleeName) {
+			rs := make([]Val, 0)
+			for _, t := range resultTypes(sig) {
+				rs = append(rs, x.freshVal("r", t, true))
+			}
+			x.eng.usedPure(calleeName)
+			return x.packResults(sig, rs), true
+		}
 		x.ctx.Note(fmt.Sprintf("%s: interface call %s without contract: all memory havocked, result unknown", x.fnName(), shortName(calleeName)))
 		return x.unknownCall(sig, st, calleeName), true
 	}
@@ -153,8 +161,19 @@ func (x *FnExec) havocAll(st *State) {
 	for k := range x.heapBool {
 		keys[k] = true
 	}
+	old := map[string]Term{}
 	for _, k := range sortedKeys(keys) {
+		if strings.HasPrefix(k, "ghost:") {
+			// abstract state changes only through contracts' modifies clauses (assumption listed in the evidence)
+			x.ctx.Note("callees without contract are assumed to leave the abstract (ghost) state " + k + " unchanged")
+			continue
+		}
+		old[k] = x.getHeap(st, k, x.heapBool[k])
 		st.heaps[k] = x.ctx.Fresh("Hc_"+k, x.heapSort(k))
+	}
+	// a callee cannot reach the caller's non-escaping stack variables
+	for _, l := range x.locals {
+		x.restoreCells(st, old, l)
 	}
 	na := x.ctx.Fresh("alloc_c", SInt)
 	x.ctx.Assert(Ge(na, st.alloc))
